@@ -15,6 +15,8 @@ import shutil
 import pxvlib
 
 KNOWN = ["dev", "prod", "local_development", "staging2", "prodEU"]
+# a hand-written ConfigProfile (harness `Manual`): free-form names, dots included
+KNOWN_MANUAL = ["prod", "prod.eu", "v1.2"]
 SCHEMAS = {
     "S1": [("server.host", "string", True), ("server.port", "u16", True), ("server.tls", "bool", False),
            ("db.url", "string", True), ("db.pool.max_size", "u32", True), ("db.pool.timeout", "i64", False),
@@ -120,7 +122,7 @@ def oracle(case, out):
         vals = [v for k, v in env if k == "PX_PROFILE"]
         if not vals:
             return None if out.get("kind") == "profile-unset" else "no profile selected, yet outcome is %s" % json.dumps(out)[:200]
-        if vals[-1] not in KNOWN:
+        if vals[-1] not in (KNOWN_MANUAL if case.get("manual") else KNOWN):
             return None if out.get("kind") == "profile-invalid" else "unknown profile %r, yet outcome is %s" % (vals[-1], json.dumps(out)[:200])
         profile = vals[-1]
     else:
@@ -249,14 +251,16 @@ def gen(rng):
     schema_name = "S1" if rng.random() < 0.85 else "S2"
     schema = SCHEMAS[schema_name]
     env, explicit = [], None
+    manual = rng.random() < 0.15
+    known = KNOWN_MANUAL if manual else KNOWN
     m = rng.random()
     if m < 0.55:
-        selected = rng.choice(KNOWN)
+        selected = rng.choice(known)
         env.append(["PX_PROFILE", selected])
     elif m < 0.76:
-        selected = explicit = rng.choice(KNOWN)
+        selected = explicit = rng.choice(known)
         if rng.random() < 0.5:
-            env.append(["PX_PROFILE", rng.choice(KNOWN + ["staging", "", "DEV", "staging_2", "prod_eu", "prodeu"])])
+            env.append(["PX_PROFILE", rng.choice(known + ["staging", "", "DEV", "staging_2", "prod_eu", "prodeu"])])
     elif m < 0.79:
         selected = None
     elif m < 0.86:
@@ -264,9 +268,9 @@ def gen(rng):
         env.append(["PX_PROFILE", rng.choice(["staging", "Dev", "DEV", " dev", "dev ", "", "production", "local-development", "LocalDevelopment"])])
     elif m < 0.9:
         selected = None
-        env.append([rng.choice(["px_profile", "Px_Profile", "PX_profile", "PX__PROFILE", "PX_PROFILE_", "PXPROFILE"]), rng.choice(KNOWN)])
+        env.append([rng.choice(["px_profile", "Px_Profile", "PX_profile", "PX__PROFILE", "PX_PROFILE_", "PXPROFILE"]), rng.choice(known)])
     else:
-        selected = rng.choice(KNOWN)
+        selected = rng.choice(known)
         env.append(["PX_PROFILE", selected])
     depth = rng.choice([1, 2, 3, 4])
     mode = rng.random()
@@ -307,14 +311,14 @@ def gen(rng):
     elif x < 0.31:
         env.append([rng.choice(["PX_SERVER", "PX_SERVER__PORT__X", "PX_DB__POOL"]), "9"])
     files = []
-    other = [p for p in KNOWN if p != selected]
+    other = [p for p in known if p != selected]
     bd = rng.randrange(depth)
     pd = bd if rng.random() < 0.7 else rng.randrange(depth)
     if not base_absent:
         files.append({"dist": bd, "name": "base", "tree": base_tree})
         if bd + 1 < depth and rng.random() < 0.3:
             files.append({"dist": rng.randrange(bd + 1, depth), "name": "base", "tree": {"server": {"host": "decoy", "port": 1}, "workers": 99, "app_name": "decoy"}})
-    sel_name = selected or rng.choice(KNOWN)
+    sel_name = selected or rng.choice(known)
     if not prof_absent:
         files.append({"dist": pd, "name": sel_name, "tree": prof_tree})
         if pd + 1 < depth and rng.random() < 0.3:
@@ -337,7 +341,7 @@ def gen(rng):
         if (f["dist"], f["name"]) not in seenf:
             seenf.add((f["dist"], f["name"]))
             ufiles.append(f)
-    return {"schema": schema_name, "explicit": explicit, "env": uenv, "absolute": absolute, "dir": dirname, "depth": depth, "files": ufiles}
+    return {"schema": schema_name, "manual": manual, "explicit": explicit, "env": uenv, "absolute": absolute, "dir": dirname, "depth": depth, "files": ufiles}
 
 
 def nontrivial(case, out):
